@@ -143,7 +143,7 @@ fn c01_case(u: &mut Unstructured) -> AResult<c01::Case> {
     }
     let (x, y) = seq_pair(u, sigma, max)?;
     let capacity = if u.ratio(1, 4)? { Some((u.int_in_range(0..=3)?, u.int_in_range(0..=3)?)) } else { None };
-    Ok(c01::Case { spec: sp, capacity, history, call: c01::Call { mode: mode(u)?, x: B(x), y: B(y) } })
+    Ok(c01::Case { spec: sp, capacity, history, call: c01::Call { mode: mode(u)?, x: B(x), y: B(y) }, match_scores: None })
 }
 
 fn entry(u: &mut Unstructured) -> AResult<c02::Entry> {
